@@ -5,6 +5,7 @@ THEOREMS = ['C03_total', 'C03_final', 'C03_init', 'C03_wf', 'C03_circuit_settles
             'C03_flat_refines', 'C03_regions_check_sound',
             'C03_build_regions_all', 'C03_wavesim_model_alias', 'C03_wavesim_model_correct', 'C03_wglue_hyps_check_sound',
             'C03_wavesim_model_settles', 'C03_wavesim_model_example']
+THEOREMS += ['C03_kernel_source_is_model', 'C03_kernel_source_any_bound', 'C03_kernel_source_example', 'C03_kernel_source_cap1_differs', 'C03_source_total', 'C03_source_settles']   # source tie of the merge kernel (Gen/WaveEvalSrc.v)
 
 
 def oracle(k, w):
@@ -16,6 +17,7 @@ def oracle(k, w):
 
 
 def run(ck):
+    wk.regen_kernel(ck)
     if THEOREMS:
         ck.prove('C03', THEOREMS)
     fails, mism = wk.campaign(ck, ck.scale(72, 1500), oracle, gen_kw={'strip_prob': 0.3}, coq_lanes=1, stress_every=2, line_level=True, glue=True)
